@@ -50,6 +50,7 @@ inductive Reject where
   | sshNotEnabled          -- Authority.Authorize: no SSH CA keys (501)
   | parse                  -- jose.ParseSigned / UnsafeClaimsWithoutVerification failed
   | notFound               -- LoadByToken: no provisioner / audience does not match
+  | tokenless              -- ACME / SCEP provisioner named by the token (refused since 719d1fc)
   | disabled               -- provisioner.Uninitialized
   | issuedBeforeStart      -- iat before the start of the CA
   | notImplemented         -- base.Authorize*: the provisioner type does not serve this operation
@@ -395,15 +396,14 @@ def certWindowTok (pc : Pop) (now : Int) : Out Unit :=
   else if pc.before != certForever && (pc.before > maxInt64 || unixNow ≥ (pc.before : Int)) then .reject .certExpired
   else .ok ()
 
-/-- the validity test of `DefaultAuthorizeSSHRenew` (controller.go): `cast.Int64` of a uint64 above
-    MaxInt64 panics, and it is applied to `ValidBefore` before the "forever" comparison, so a
-    host certificate valid forever aborts the renew request. -/
+/-- the validity test of `DefaultAuthorizeSSHRenew` (controller.go, since 763c7e1): `cast.SafeInt64`;
+    `ValidBefore` is looked at only when it is not "forever" and renewal after expiry is not
+    allowed (`lenient`). Never aborts. -/
 def certWindow (pc : Pop) (now : Int) (lenient : Bool) : Out Unit :=
   let unixNow := now / ns
-  if pc.after > maxInt64 then .crash
-  else if unixNow < (pc.after : Int) then .reject .certNotYetValid
-  else if pc.before > maxInt64 then .crash
-  else if pc.before != certForever && unixNow ≥ (pc.before : Int) && !lenient then .reject .certExpired
+  if pc.after > maxInt64 || unixNow < (pc.after : Int) then .reject .certNotYetValid
+  else if pc.before != certForever && !lenient && (pc.before > maxInt64 || unixNow ≥ (pc.before : Int)) then
+    .reject .certExpired
   else .ok ()
 
 def sshpopTok (cfg : Config) (p : Prov) (c : Cr) (now : Int) (op : Op) (t : Tok) (checkValidity : Bool) : Out Pop :=
@@ -491,7 +491,8 @@ def nebulaOp (cfg : Config) (p : Prov) (c : Cr) (now : Int) (op : Op) (t : Tok) 
   | .sshRenew | .sshRekey => baseReject
 
 /-- ACME and SCEP provisioners are stored in the same collection under `acme/<name>`, `scep/<name>`;
-    their `AuthorizeSign` (ACME: also `AuthorizeRevoke`) ignore the token argument altogether. -/
+    their `AuthorizeSign` (ACME: also `AuthorizeRevoke`) ignore the token argument altogether.
+    Since 719d1fc `getProvisionerFromToken` never hands a token to them (see `authorize`). -/
 def tokenlessOp (ty : PType) (op : Op) : Out Unit :=
   match ty, op with
   | _, .sign => .ok ()
@@ -527,6 +528,9 @@ def authorize (cfg : Config) (now : Int) (op : Op) (t : Tok) : Out Nat := do
   match loadByToken cfg t with
   | none => .reject .notFound
   | some (i, p) =>
+    -- ACME and SCEP provisioners ignore the token: refused here (fix 719d1fc), before the
+    -- Uninitialized test (`Uninitialized{acme}.GetType()` still reports ACME)
+    need (p.ty != .acme && p.ty != .scep) .tokenless
     need p.init .disabled
     need (cfg.disableIat || !issuedBefore cfg t) .issuedBeforeStart
     provOp cfg p (t.crAt i) now op t
